@@ -148,7 +148,17 @@ func judge(class string, key []byte, o *fw.Obs) {
 			}
 		}
 		if cmp(o, fmt.Sprintf("Add(%v, %v)", m1, m2), x, y, want) && cmp(o, fmt.Sprintf("Add(%v, %v)", m2, m1), xr, yr, want) {
-			o.Count("add ok")
+			// the results belong to the caller: it overwrites them, then asks again
+			x.SetInt64(12345)
+			y.SetInt64(-1)
+			xr.Lsh(xr, 7)
+			var x3, y3 *big.Int
+			if !o.Try("Add (again)", func() { x3, y3 = c.Add(x1, y1, x2, y2) }) {
+				return
+			}
+			if cmp(o, fmt.Sprintf("Add(%v, %v) again, after the caller overwrote the first results", m1, m2), x3, y3, want) {
+				o.Count("add ok")
+			}
 		}
 	case "double":
 		x1, y1, m1 := decPt(p[1])
@@ -195,6 +205,31 @@ func judge(class string, key []byte, o *fw.Obs) {
 			}
 		}
 		if !cmp(o, fmt.Sprintf("%s(%v, k=%x)", class, m1, kb), x, y, want) {
+			return
+		}
+		// the results belong to the caller: it overwrites them, then asks again (a result that is an
+		// internal object of the curve, e.g. the base point itself, would be corrupted)
+		x.SetInt64(7)
+		y.Neg(y)
+		var xa, ya *big.Int
+		if class == "basemult" {
+			if !o.Try("ScalarBaseMult (again)", func() { xa, ya = c.ScalarBaseMult(kb) }) {
+				return
+			}
+		} else {
+			if !o.Try("ScalarMult (again)", func() { xa, ya = c.ScalarMult(x1, y1, kb) }) {
+				return
+			}
+		}
+		if !cmp(o, fmt.Sprintf("%s(%v, k=%x) again, after the caller overwrote the first results", class, m1, kb), xa, ya, want) {
+			return
+		}
+		var g *stdelliptic.CurveParams
+		if !o.Try("Params", func() { g = c.Params() }) {
+			return
+		}
+		if g == nil || g.Gx.Cmp(mc.Gx) != 0 || g.Gy.Cmp(mc.Gy) != 0 || g.N.Cmp(mc.N) != 0 || g.P.Cmp(mc.P) != 0 {
+			o.Fail("params", "the curve parameters changed: %+v", g)
 			return
 		}
 		o.Count(class + " ok")
@@ -258,7 +293,13 @@ func judge(class string, key []byte, o *fw.Obs) {
 			o.Fail("identity", "[n]P = (%x,%x), expected (0,0), P=%v", xn, yn, m1)
 			return
 		}
-		if (xs.Sign() != 0 || ys.Sign() != 0) && !c.IsOnCurve(xs, ys) {
+		onCurve := true
+		if xs.Sign() != 0 || ys.Sign() != 0 {
+			if !o.Try("IsOnCurve", func() { onCurve = c.IsOnCurve(xs, ys) }) {
+				return
+			}
+		}
+		if !onCurve {
 			o.Fail("identity", "result (%x,%x) is neither on the curve nor (0,0)", xs, ys)
 			return
 		}
